@@ -85,7 +85,7 @@ def _terms(labels, quad, spin):
         poly(gen.SMALL_INT_COEFS, 2), poly(gen.SMALL_INT_COEFS, 3), poly(st.sampled_from([-1, 1]), 3),
         poly(gen.INT_COEFS, 2), poly(gen.DYADIC_COEFS, 2), poly(coefs, 1), poly(coefs, 4), poly(coefs, 0),
         poly(coefs, 2, False), poly(gen.SMALL_INT_COEFS, 4, False),
-        poly(coefs, 3), poly(gen.SMALL_INT_COEFS, 5),
+        poly(coefs, 3), poly(gen.SMALL_INT_COEFS, 5), poly(gen.TINY_COEFS, 2), poly(gen.HUGE_COEFS, 2),
         st.one_of(
             st.tuples(st.just(()), st.one_of(gen.INT_COEFS, gen.DYADIC_COEFS)).map(lambda t: [list(t)]),   # constant only
             st.just([])),                                                                              # empty
